@@ -73,6 +73,11 @@ def check_total(case):
     if 'keypoints' in tg:
         data['keypoints'] = [(float(rs.randint(0, W)), float(rs.randint(0, H)), float(rs.randint(0, D)), 0.3, 1.5) for _ in range(5)]
         ckw['keypoint_params'] = A.KeypointParams('xyzas', angle_in_degrees=False)
+    if case.get('empty_annotations'):
+        # a sample without any annotation is a valid sample: empty box / keypoint lists
+        for k in ('bboxes', 'keypoints'):
+            if k in data:
+                data[k] = []
     if 'dicom' in tg or 'dicom' in spec.get('needs', []):
         # documented header fields as floats (non-integral where the field allows it) or as integers
         data['dicom'] = dict(DICOM, XRayTubeCurrent=212.5) if case['float_header'] else dict(DICOM, RescaleIntercept=-1024, RescaleSlope=1)
@@ -197,7 +202,8 @@ def run(seed=0, tier='quick', hints=None, broken=False):
                     channels = None
                 case = {'name': name, 'kw': jsonable(kw), 'shape': [12, 10, 8], 'seed': rng.randint(0, 10 ** 6),
                         'dtype': dt, 'channels': channels, 'targets': targets,
-                        'float_header': (it % 2 == 0) if 'dicom' in spec.get('needs', []) else rng.random() < 0.5}
+                        'float_header': (it % 2 == 0) if 'dicom' in spec.get('needs', []) else rng.random() < 0.5,
+                        'empty_annotations': dual and it % 3 == 2}
                 if ext is not None:
                     case['seed'] = R.EXT_BASE + ext
                 bad = check_total(case)
